@@ -12,6 +12,7 @@
   Helper lemmas: `AcnProofs/Lemmas/Pilots*.lean`.
 -/
 import AcnProofs.Lemmas.PilotsStep
+import AcnProofs.Lemmas.PilotsHist
 
 set_option linter.unusedSectionVars false
 
@@ -557,5 +558,84 @@ example :
     ∧ mustSchedule (schedStepState ["A", "B"] s 3 (some 4) [("A", [1]), ("B", [2, 3])]) 3 (some 2) = true
     ∧ (schedStepState ["A", "B"] s 3 (some 4) [("A", [1]), ("B", [2, 3])]).history = [(1, [("A", [4])])] := by
   refine ⟨rfl, rfl, rfl⟩
+
+/-! ### histories with steps that are not submissions: JSON save / restore, `update_scheduler` -/
+
+/-- **Save / restore round trip of the matrix.**  `pilot_signals` of a network with at least one station
+    (`n` rows, all of the matrix' width) comes back from `to_json` / `from_json` exactly as it went in —
+    values, shape and width, whatever the width (including 0). -/
+theorem restore_roundtrip {n : Nat} {m : Mat K} (h : m.WF n) (hn : 0 < n) : restoreMat m = some m :=
+  restoreMat_wf h hn
+
+example : restoreMat (⟨[[1, 2, 0], [0, 7, 8]], 3⟩ : Mat ℤ) = some ⟨[[1, 2, 0], [0, 7, 8]], 3⟩ := by rfl
+/-- (a simulator over a network WITHOUT stations does not survive the round trip: `np.array([])` is 1-D) -/
+example : restoreMat (Mat.zeros 0 4 : Mat ℤ) = none := by rfl
+
+/-- **Restores and scheduler swaps are invisible to the pilots.**  ANY history — loop trips of `run()`
+    and `step()` with any schedules (accepted, empty, rejected: then both sides raise the same error),
+    with `Simulator.from_json(sim.to_json())` and `update_scheduler` steps anywhere in between, any number
+    of them — over a network with at least one station, from any well-formed matrix, is the history of its
+    loop trips alone: same final matrix, same station order, same pilots received by every EVSE
+    (reported BY STATION ID) in every trip, same error. -/
+theorem hist_eq_trips {stations : List String} (hpos : 0 < stations.length) {m : Mat K}
+    (hm : m.WF stations.length) (hs : List (HStep K)) :
+    runHist stations m hs = histOfTrips stations (runTrips stations m (tripsOfHist hs)) :=
+  runHist_eq_trips hpos hs m hm
+
+/-- **Applied pilots for histories.**  For a history as above that starts from the zero matrix and does
+    not raise: `station_ids` is still the registration order; every cell of the final matrix located by
+    station id is the spec of the submissions made in the loop trips (restores and swaps contribute
+    nothing and lose nothing: a multi-period schedule submitted before a restore / swap stays in force
+    until a later SUBMISSION overwrites it); and in the `k`-th loop trip every EVSE received, by station
+    id, `pilotAt` of the submissions made up to and including that trip. -/
+theorem hist_applied_eq_spec {stations : List String} (hn : stations.Nodup) (hpos : 0 < stations.length)
+    (w : Nat) (hs : List (HStep K)) (ids' : List String) (m' : Mat K) (cols : List (List (String × K)))
+    (hrun : runHist stations (Mat.zeros stations.length w) hs = .ok (ids', m', cols)) :
+    ids' = stations
+    ∧ m'.WF stations.length
+    ∧ (∀ st τ, getById ids' m' st τ = pilotAt stations (subsOf ((tripsOfHist hs).map Prod.fst)) st τ)
+    ∧ cols.length = (tripsOfHist hs).length
+    ∧ ∀ k (hk : k < (tripsOfHist hs).length), cols[k]? =
+        some (stations.map fun st =>
+          (st, pilotAt stations (subsOf (((tripsOfHist hs).take (k + 1)).map Prod.fst)) st
+                 (tripsOfHist hs)[k].1.t)) := by
+  rw [hist_eq_trips hpos (zeros_wf _ _)] at hrun
+  cases hr : runTrips stations (Mat.zeros stations.length w) (tripsOfHist hs) with
+  | error e => rw [hr] at hrun; cases hrun
+  | ok r =>
+    obtain ⟨m2, cols2⟩ := r
+    rw [hr] at hrun
+    simp only [histOfTrips] at hrun
+    injection hrun with hrun
+    injection hrun with h1 hrun
+    injection hrun with h2 h3
+    subst h1; subst h2; subst h3
+    obtain ⟨k1, k2, k3, k4⟩ := trips_applied_eq_spec hn w _ m2 cols2 hr
+    refine ⟨rfl, k1, fun st τ => k2 st τ, by simp [k3], ?_⟩
+    intro k hk
+    rw [List.getElem?_map, k4 k hk]
+    simp only [Option.map_some, Option.some.injEq]
+    exact zip_map_self stations _
+
+/-- the scenario class of the seeds: ids registered in non-sorted order, a 4-period schedule at 0 with a
+    different row per station, a restore after period 0, a scheduler swap after period 1, an empty
+    schedule at 2: the old schedule is what the EVSEs receive in all four periods, by id -/
+example :
+    runHist ["n", "e"] (Mat.zeros 2 1 : Mat ℤ)
+      [.trip ⟨0, some 3, some [("n", [8, 8, 8, 8]), ("e", [16, 17, 18, 19])]⟩ 4, .restore,
+       .trip ⟨1, some 3, none⟩ 4, .swap, .trip ⟨2, some 3, some []⟩ 4, .restore, .swap,
+       .trip ⟨3, none, none⟩ 4]
+    = .ok (["n", "e"], ⟨[[8, 8, 8, 8], [16, 17, 18, 19]], 4⟩,
+           [[("n", 8), ("e", 16)], [("n", 8), ("e", 17)], [("n", 8), ("e", 18)], [("n", 8), ("e", 19)]]) := by
+  rfl
+
+/-- why the key order of the save / restore matters (`jsonKeyOrder` = identity in the code: `json.dump`
+    without `sort_keys`): were the keys written in another order — here reversed — while the rows stay
+    positional, station "e" would receive the pilots scheduled for "n" after the restore -/
+example :
+    runHistWith List.reverse ["n", "e"] (Mat.zeros 2 1 : Mat ℤ)
+      [.trip ⟨0, some 1, some [("n", [8, 8]), ("e", [16, 17])]⟩ 2, .restore, .trip ⟨1, none, none⟩ 2]
+    = .ok (["e", "n"], ⟨[[8, 8], [16, 17]], 2⟩, [[("n", 8), ("e", 16)], [("e", 8), ("n", 17)]]) := by
+  rfl
 
 end Acn.C04
